@@ -671,6 +671,12 @@ func (c *Compiler) writeNode(node, parent *node, recv, v, vsrc string, depth int
 	// Flag to check length of the path array.
 	requireLenCheck := node.typ != typeBasic && !(mode == modeLoop && (node.typ == typeMap || (node.typ == typeSlice && node.typn != "[]byte")))
 
+	if mode == modeCmp && node.ptr && node.typ != typeBasic {
+		// The path ends at a pointer field, map value or slice element: the "nil" operand asks for the pointer itself.
+		c.wl("if len(path) == ", depths, " {")
+		c.writeCmp(node, v)
+		c.wl("}")
+	}
 	if requireLenCheck {
 		c.wl("if len(path) > ", depths, " {")
 	}
@@ -764,12 +770,6 @@ func (c *Compiler) writeNode(node, parent *node, recv, v, vsrc string, depth int
 					}
 				}
 				c.wl("_ = ", nv)
-				if mode == modeCmp && ch.ptr {
-					// The "nil" operand asks for the field itself only when the path ends here.
-					c.wl("if len(path) == ", strconv.Itoa(depth+1), " {")
-					c.writeCmp(ch, nv)
-					c.wl("}")
-				}
 				err := c.writeNode(ch, node, recv, nv, vsrc, depth+1, mode)
 				if err != nil {
 					return err
